@@ -435,6 +435,28 @@ def listing(root: str) -> T.Dict[str, tuple]:
     return out
 
 
+def outside_snapshot(R: str, dd: str) -> T.Dict[str, tuple]:
+    """everything in the scratch root that is NOT beneath DESTDIR -- its parent, its siblings, the sources, the build
+    directory (minus the installer's own log)"""
+    out: T.Dict[str, tuple] = {}
+    logdir = os.path.join(R, 'build', 'meson-logs')
+    for r, ds, fs in os.walk(R):
+        if r == dd or r.startswith(dd + '/') or r == logdir:
+            ds[:] = []
+            continue
+        ds[:] = [d for d in ds if os.path.join(r, d) not in (dd, logdir)]
+        for nme in ds + fs:
+            p = os.path.join(r, nme)
+            st = os.lstat(p)
+            if stat.S_ISLNK(st.st_mode):
+                out[p] = ('l', os.readlink(p))
+            elif stat.S_ISDIR(st.st_mode):
+                out[p] = ('d', stat.S_IMODE(st.st_mode))
+            else:
+                out[p] = ('f', st.st_size, st.st_mtime_ns, stat.S_IMODE(st.st_mode))
+    return out
+
+
 def work(arg: T.Tuple[dict, str, int, bool]) -> dict:
     spec, base, seed, deep = arg
     R = os.path.join(base, spec['name'])
@@ -448,9 +470,15 @@ def work(arg: T.Tuple[dict, str, int, bool]) -> dict:
         res['glue'] = glue_requests(spec, R, bld, prefix, A)
         rng = random.Random(seed)
         for i, sel in enumerate(spec.get('selections') or selections(spec, ents, rng, deep)):
-            dd = os.path.join(R, f'dest{i}')
+            dd = os.path.join(R, f'sel{i}', 'stage')
+            before = outside_snapshot(R, dd)
             err = real_install(bld, dd, sel)
-            res['runs'].append({'sel': sel, 'err': err, 'tree': listing(dd) if os.path.isdir(dd) else {}})
+            after = outside_snapshot(R, dd)
+            changed = sorted(p for p in set(before) | set(after) if before.get(p) != after.get(p))
+            # creating DESTDIR's missing parents is part of using it
+            changed = [p for p in changed if not (p not in before and after[p][0] == 'd' and (dd + '/').startswith(p + '/'))]
+            res['runs'].append({'sel': sel, 'err': err, 'tree': listing(dd) if os.path.isdir(dd) else {},
+                                'outside': [os.path.relpath(p, R) for p in changed[:5]]})
     except Exception as e:
         res['crash'] = f'{type(e).__name__}: {e}'
     finally:
@@ -548,6 +576,13 @@ def judge_project(ctx, spec: dict, res: dict) -> None:
         case = {'e2e': dict(spec, selections=[sel])}
         ctx.count()
         ctx.tag('e2e:' + ('tags' if sel.get('tags') else 'all') + ('+skip' if sel.get('skip') else ''))
+        if run.get('outside'):
+            ctx.violation(f'e2e-outside-destdir:{name}', f'meson install {sel} changed paths outside DESTDIR '
+                          f'(sel*/stage): {run["outside"]}', case)
+            continue
+        if spec.get('escape'):
+            ctx.tag('e2e-escape:' + ('refused' if run['err'] != 'ok' else 'accepted-inside'))
+            continue        # judged on confinement only: refusing the rule or staying inside DESTDIR are both fine
         if run['err'] != 'ok':
             ctx.violation(f'e2e-install-failed:{name}', f'meson install {sel} failed: {run["err"][:160]}', case)
             continue
@@ -619,10 +654,36 @@ def corpus() -> T.List[dict]:
              'selections': [{}, {'tags': 'devel'}, {'tags': 'runtime'}, {'tags': 'i18n'}, {'tags': 'custom tag'}]}]
 
 
+def escape_project(rng: random.Random, idx: int) -> dict:
+    """one rule whose install dir climbs with `..` out of the prefix towards DESTDIR's parent and lands on a name derived
+    from DESTDIR's own name (`stage`): siblings sharing it as a string prefix, a proper prefix, the name itself, ..."""
+    base = 'stage'
+    target = rng.choice([base + '-extra', base + 'x', base + '.d', base + '/', base[:3], base, '', '..', 'unrelated'])
+    if rng.random() < 0.35:
+        d = '/' + '../' * rng.choice([1, 2]) + target + '/etc'
+    else:
+        d = 'share/' + '../' * 4 + target + '/etc'          # prefix is <root>/usr: share -> usr -> <root> -> DESTDIR -> parent
+    d = d.replace('//', '/')
+    kind = rng.choice(['data', 'headers', 'man', 'subdir', 'emptydir', 'symlink', 'configure'])
+    files = {'f.txt': ['f\n', 0o644], 'm.1': ['m\n', 0o644], 'h.h': ['h\n', 0o644], 'tree/in.txt': ['in\n', 0o644], 'c.in': ['c\n', 0o644]}
+    cf = {'mode': None, 'tag': None, 'sub': ''}
+    r = {'data': {'kind': 'data', 'srcs': ['f.txt'], 'install_dir': d, **cf},
+         'headers': {'kind': 'headers', 'srcs': ['h.h'], 'install_dir': d, **cf},
+         'man': {'kind': 'man', 'srcs': ['m.1'], 'locale': None, 'install_dir': d, **cf},
+         'subdir': {'kind': 'subdir', 'name': 'tree', 'install_dir': d, 'strip': rng.random() < 0.5, 'exclude_files': [],
+                    'exclude_dirs': [], **cf},
+         'emptydir': {'kind': 'emptydir', 'path': d + '/empty', **cf},
+         'symlink': {'kind': 'symlink', 'name': 'lnk', 'target': 't', 'install_dir': d, 'tag': None, 'sub': ''},
+         'configure': {'kind': 'configure', 'input': 'c.in', 'output': 'gen.conf', 'install_dir': d, **cf}}[kind]
+    return {'name': f'e2e-escape-{idx}', 'proj': 'proj', 'opts': dict(DIR_DEFAULTS), 'umask': '022', 'files': files, 'links': {},
+            'rules': [r], 'sub_rules': [], 'selections': [{}], 'escape': {'kind': kind, 'dir': d}}
+
+
 def run_stream(ctx, scratch_base: T.Callable[[], str], nproj: int) -> None:
     import multiprocessing
     rng = ctx.rng
-    specs = corpus() + [gen_project(rng, i) for i in range(nproj)]
+    specs = corpus() + [gen_project(rng, i) for i in range(nproj)] + \
+        [escape_project(rng, i) for i in range(max(8, nproj // 3))]
     base = scratch_base()
     try:
         with multiprocessing.get_context('fork').Pool(min(16, os.cpu_count() or 4)) as pool:
